@@ -30,9 +30,16 @@ func (rr *RoundRobinStrategy) NextBackend(r *http.Request) *Backend {
 		return nil
 	}
 
-	// Get the next index in a thread-safe way
-	idx := atomic.AddUint64(&rr.current, 1) % uint64(len(rr.backends))
-	return rr.backends[idx]
+	// Get the next index in a thread-safe way, skipping backends that are marked
+	// unhealthy; give up after one full turn.
+	n := uint64(len(rr.backends))
+	for i := uint64(0); i < n; i++ {
+		backend := rr.backends[atomic.AddUint64(&rr.current, 1)%n]
+		if backend.markedHealthy() {
+			return backend
+		}
+	}
+	return nil
 }
 
 // AddBackend adds a backend to the pool
